@@ -68,7 +68,7 @@ pub fn generate(a: &Args) {
     }
     // behaviour: a separating family, grouped by matrix
     let mut family: Vec<(Vec<Vec<usize>>, usize, Vec<f64>, usize)> = vec![];
-    let nmat = if th { 60 } else { 14 };
+    let nmat = if th { 400 } else { 14 };
     for m in 0..nmat {
         let (mut rows, n) = random_code(&mut rng, m, 4, 8);
         if m % 2 == 0 && n >= 3 {
